@@ -27,7 +27,8 @@ META = {
         'timezone_name finds a zone for a parser-made fixed-offset tzinfo (tz database; its exception discipline is '
         'C17.D3).'
         ' Also (D3): both readers convert a stamp INTO the named zone (date-time API rule and zone_applied shared with C17.D2); the empty display string of a reference survives either format.'
-        ' Also (D2): a memoised text function is not handed an unhashable str subclass (Bin).  (D3) the written zone label is timezone_name(value) on every path.'),
+        ' Also (D2): a memoised text function is not handed an unhashable str subclass (Bin).  (D3) the written zone label is timezone_name(value) on every path.'
+        ' Also (D3): the text of a number is not trimmed with a digit-bearing strip set unless the exponent form is excluded.'),
     'rule_text': 'obligations = dumper functions x purity, determinism scan, gate comparisons, reader kinds x ladders',
     'trusted_base': ['dict preserves insertion order (CPython >= 3.7); json.dumps is deterministic for a given object'],
 }
@@ -87,6 +88,8 @@ def run(ctx):
     # instant); a reader that re-labels the wall clock instead disagrees with the other format (shared with C17.D2)
     from . import c17
     c17._api(ctx, m, rule='C07.D3', only=('zincparser', 'jsonparser', 'zincdumper', 'jsondumper'))
+    for modname in ('zincdumper', 'jsondumper'):
+        _zinc.number_text_edits(ctx, 'C07.D3', modname)
     c17.zone_applied(ctx, m, 'C07.D3', 'zincparser', '_parse_datetime', 'zinc')
     c17.zone_applied(ctx, m, 'C07.D3', 'jsonparser', 'parse_embedded_scalar', 'json')
     # the empty display string of a reference survives either format (shared with C08)
